@@ -75,16 +75,25 @@ def helpers(ctx: Ctx):
             why = f"new axis of size `repeats` is inserted in FRONT of the batch axis ({e_ok}) and merged with it by view(s[0]*repeats, ...) ({v_ok}): layout (replica, batch), batch minor"
     ctx.ob("C12.a", "_batchify_single", ok, fb.loc, why, construct="_batchify_single:layout")
     it = vg.Interp(ctx.repo, None)
-    r = it.run_function(fu).ret
+    fru = it.run_function(fu)
     ok, why = False, "not x.view(repeats, s[0] // repeats, *s[1:]).permute(1, 0, ...)"
-    if isinstance(r, vg.S) and r.op == "meth" and r.args[1] == "permute":
-        v = r.args[0]
-        p_ok = vg.is_const(r.args[2], 1) and vg.is_const(r.args[3], 0)
-        if v.op == "meth" and v.args[1] == "view":
-            a0, a1 = v.args[2], v.args[3]
-            v_ok = a0.op == "param" and a0.args[0] == "repeats" and a1.op == "//" and a1.args[1] is a0
-            ok = p_ok and v_ok
-            why = f"leading axis split as (repeats, B) ({v_ok}) and transposed to (B, repeats) ({p_ok}): inverse of the (replica, batch) layout"
+    # EVERY return path splits the leading axis (a shortcut `return x` for a factor of one drops the replica axis the callers index)
+    paths = [it.sym(v) for _, v in fru.returns]
+    oks = []
+    for r in paths:
+        ok1 = False
+        if isinstance(r, vg.S) and r.op == "meth" and r.args[1] == "permute":
+            v = r.args[0]
+            p_ok = vg.is_const(r.args[2], 1) and vg.is_const(r.args[3], 0)
+            if v.op == "meth" and v.args[1] == "view":
+                a0, a1 = v.args[2], v.args[3]
+                v_ok = a0.op == "param" and a0.args[0] == "repeats" and a1.op == "//" and a1.args[1] is a0
+                ok1 = p_ok and v_ok
+                why = f"leading axis split as (repeats, B) ({v_ok}) and transposed to (B, repeats) ({p_ok}): inverse of the (replica, batch) layout"
+        oks.append(ok1)
+    ok = bool(oks) and all(oks)
+    if oks and not ok:
+        why = f"{oks.count(False)} of {len(oks)} return path(s) do not split the leading axis as (repeats, B) and transpose it: the replica axis is missing on that path"
     ctx.ob("C12.a", "_unbatchify_single", ok, fu.loc, why, construct="_unbatchify_single:layout")
     for nm in ("batchify", "unbatchify"):
         fi = ctx.repo.get_function(OPS, nm)
@@ -932,6 +941,33 @@ def select_best_whenever_expanded(ctx: Ctx):
            construct="DecodingStrategy.post_decoder_hook:select-best-guard")
 
 
+def normaliser_keeps_the_shape_of_the_instance(ctx: Ctx):
+    """C12.g / C15.l `min_max_normalize` (StateAugmentation(normalize=True)) maps the augmented copies back into the unit square
+    with ONE scale for both coordinates: every min / max / amin / amax that defines offset and scale reduces over the
+    coordinate axis too (no `dim`, or a `dim` that contains -1 / the last axis).  A per-coordinate scale stretches x and y
+    differently: the copy is no longer similar to its instance, tour-length ratios change and the best of the k augmented
+    rollouts need not be the best for the instance."""
+    fi = ctx.repo.get_function("rl4co/data/transforms.py", "min_max_normalize")
+    ctx.fn(fi)
+    reds, bad = 0, []
+    for c in ast.walk(fi.node):
+        if isinstance(c, ast.Call) and isinstance(c.func, ast.Attribute) and c.func.attr in ("min", "max", "amin", "amax"):
+            reds += 1
+            dims = [k.value for k in c.keywords if k.arg == "dim"] + list(c.args[:1])
+            if not dims:
+                continue
+            d = dims[0]
+            vals = [e.value if isinstance(e, ast.Constant) else (-e.operand.value if isinstance(e, ast.UnaryOp) and isinstance(e.op, ast.USub) and isinstance(e.operand, ast.Constant) else None)
+                    for e in (d.elts if isinstance(d, (ast.Tuple, ast.List)) else [d])]
+            if -1 not in vals:
+                bad.append(f"{ast.unparse(c)[:50]} (line {c.lineno})")
+    if reds < 2:
+        raise AnalysisError(f"min_max_normalize: min / max reductions not found ({reds})")
+    ctx.ob("C12.g", "min_max_normalize:one-scale-for-both-coordinates", not bad, fi.loc,
+           f"{reds} reductions, each includes the coordinate axis: {not bad}" + ("" if not bad else f" -- {bad[0]} keeps the coordinates apart: x and y get different scales"),
+           construct="min_max_normalize:per-coordinate-scale")
+
+
 def start_nodes_used_as_selected(ctx: Ctx):
     """C12.d (callers) the node indices returned by `select_start_nodes` are forced as first actions AS SELECTED: the start
     rule of each environment already confines them to that environment's feasible range (customers 1..N for depot problems,
@@ -985,6 +1021,7 @@ def run(ctx: Ctx):
     select_best_whenever_expanded(ctx)
     n3 = start_nodes(ctx)
     start_nodes_used_as_selected(ctx)
+    normaliser_keeps_the_shape_of_the_instance(ctx)
     ctx.extra["einops_batch_groups"] = n1
     ctx.extra["arange_sites"] = n2
     ctx.extra["registered_envs_checked"] = n3
